@@ -14,6 +14,8 @@ spec = importlib.util.spec_from_loader("check", loader)
 m = importlib.util.module_from_spec(spec); loader.exec_module(m)
 import json
 claimed = sorted(json.load(open("claimed.json")))
+# a property's check may have components (props/<component>.json): build them as well
+claimed = claimed + sorted({c for p in claimed for c in m.PROPS.get(p, {}).get("components", [])})
 ok, log = m.coq_build(None, ["Model/DecCheck.vo"] + ["Properties/%s.vo" % p for p in claimed])
 print(log[-3000:])
 if not ok:
